@@ -637,7 +637,15 @@ def check_C13(res):
     return "the writer sequences of C12 over a name pool with shared suffixes and case variants (every pointer of every finished message is checked), plus all server responses of the resolve profile"
 
 
+def check_C11(res):
+    q = res.tier == "quick"
+    trace_stage(res, ["tsiglib", res.seed, 1200 if q else 25000, 60 if q else 25], "TraceTsigLib", "tsiglib", ["C11"])
+    res.assumptions += ["HMAC-SHA1/SHA-256 computed by the JDK inside TLC (trusted primitive)"]
+    return "messages built with the real Writer in request/response/subsequent mode (also via into_template + try_from_template_as_tsig_subsequent), both algorithms, keys of 1-69 octets, prior MACs of 0-39 octets, times over the whole 48-bit range, fudges 0..65535, all error codes, with and without OPT; verified as produced at clocks time +- fudge (+-1), with one random bit flipped, with the MAC truncated to every length 0..out+1, and (every k-th message) with every octet position flipped in turn"
+
+
 CHECKS = {
+    "C11": check_C11,
     "C12": check_C12, "C13": check_C13,
     "C15": check_C15,
     "C18": check_C18, "C19": check_C19,
